@@ -2,5 +2,5 @@ CONSTANTS
   Wide = FALSE
 INIT Init
 NEXT Next
-INVARIANT RingInv
+INVARIANTS RingInv CplxInv
 CHECK_DEADLOCK FALSE
